@@ -1982,6 +1982,8 @@ func rulePackageWalksRecurseThroughImportsOnly(c *core.Ctx) {
 func init() {
 	reg("C19", ruleNodeMemosKeyedByNode)
 	reg("C09", ruleNodeMemosKeyedByNode)
+	reg("C06", ruleNodeMemosKeyedByNode)
+	reg("C05", ruleNodeMemosKeyedByNode)
 }
 
 // ---------------------------------------------------------------------------------------------------------------
@@ -2050,6 +2052,45 @@ func ruleNodeMemosKeyedByNode(c *core.Ctx) {
 			n++
 			c.Check(!bad, rule, key, ix.Pos(), "keyed by the node (or by something other than the node's own name)",
 				"`"+types.ExprString(ix)+"`: a memo of *"+vn.Obj().Name()+" nodes that travels in a context struct is keyed by the node's Name. The name is unique within its record / protocol only; where the context is copied for another parent (a member access into another record's computed field shares the map) the lookup returns the other parent's node — its expression and type are used for this one, in every back end")
+			return true
+		})
+	}
+	// second clause: no map of pkg/dsl is keyed by the UNQUALIFIED spelling of a type (TypeToShortSyntax(t, false), possibly
+	// concatenated): `Kind` of this namespace and `Lib.Kind` share that spelling, a memo keyed by it answers for one with
+	// the verdict computed for the other
+	for _, d := range c.AllDecls() {
+		if c.DeclPkg(d) != p || d.Body == nil || c.IsTestFile(d.Pos()) {
+			continue
+		}
+		k := 0
+		ast.Inspect(d.Body, func(m ast.Node) bool {
+			ix, ok := m.(*ast.IndexExpr)
+			if !ok {
+				return true
+			}
+			if _, isMap := derefType(info.TypeOf(ix.X)).Underlying().(*types.Map); !isMap {
+				return true
+			}
+			key := ast.Expr(ix.Index)
+			if id, ok := ast.Unparen(key).(*ast.Ident); ok {
+				key = singleDefRHS(info, d.Body, id)
+			}
+			unq := false
+			ast.Inspect(key, func(q ast.Node) bool {
+				if ce, ok := q.(*ast.CallExpr); ok && len(ce.Args) == 2 {
+					if f := core.Callee(info, ce); f != nil && f.Name() == "TypeToShortSyntax" {
+						if tv, ok := info.Types[ce.Args[1]]; ok && tv.Value != nil && tv.Value.Kind() == constant.Bool && !constant.BoolVal(tv.Value) {
+							unq = true
+						}
+					}
+				}
+				return true
+			})
+			if unq {
+				k++
+				c.Bad(rule, fmt.Sprintf("%s/%s keyed by unqualified type syntax#%d", c.FuncName(d), types.ExprString(ix.X), k), ix.Pos(),
+					"`"+types.ExprString(ix.X)+"` is keyed by TypeToShortSyntax(…, false), the spelling of a type without namespaces: a type of this package and a same-named type of an imported package share the key, so what was stored for one (an 'unchanged' verdict of the evolution analyser) is returned for the other")
+			}
 			return true
 		})
 	}
